@@ -504,6 +504,7 @@ def c20(run):
     from rules import r_cmpbound
     n = r_cmpbound.run(run, P, only={'match', 'coap_print_wellknown_lkd', 'coap_find_attr'})
     run.require(n >= 4, 'R-CMP-BOUND: fewer than 4 comparisons found in the query-filter code (match, coap_print_wellknown_lkd, coap_find_attr)')
+    run.require_count(any(fn == 'coap_find_attr' for fn, _l in r_cmpbound.FINDERS) or run.cfg != 'base', 'R-CMP-BOUND (finder exact): the name comparison of coap_find_attr() was not judged')
     run.min_instances('R-OUT-BOUND', 10)
     run.assumptions = ASSUME_COMMON + ["window / total / truncation-flag exactness are NOT decided; of the filter semantics only 'a token is compared over its own length' is"]
     from rules import r_misc12
